@@ -182,7 +182,7 @@ Proof.
   rewrite map_map. apply map_ext. intros t. rewrite map_map. apply map_ext. intros o. symmetry. apply skel_erase.
 Qed.
 
-(* a dotted name as the parser builds it (Parser.wrap_dotted: id-less, line-less prefix scopes, merge
+(* a dotted name as the parser builds it (Parser.wrap_dotted: line-less prefix scopes carrying the id of the object, merge
    flags from the second component on, the object renamed to the last component) against the same
    path written with braces: scopes with arbitrary ids and lines, each with the single child *)
 Fixpoint braces (hs:list hdr) (o:obj) : obj :=
